@@ -3,7 +3,7 @@
    (literal backslash-N -> LF, then CRLF -> LF).  [direct_safe]/[line_safe] are the boolean
    guards "contains none of the listed substrings" (Model/Text.v); outside them the
    property is refuted below with concrete witnesses (known findings). *)
-Require Import Lib.Base Lib.Chain Gen.Gen_parser Model.Text Proofs.TextProofs.
+Require Import Lib.Base Lib.Chain Gen.Gen_parser Model.Text Proofs.TextProofs Proofs.CategoriesProofs.
 
 (* vText.from_ical(vText(s).to_ical()) for every string without the substring backslash-n *)
 Theorem C07_direct : forall s, direct_safe s = true ->
@@ -38,6 +38,34 @@ Theorem C07_escape_spec : forall s, escape_char s = flat_map esc_map (norm s).
 Proof. intros s. rewrite escape_char_spec. apply perchar_map. Qed.
 Theorem C07_escape_certificate : check escape_char_chain esc_spec_chain [] esc_crit esc_cert = true.
 Proof. exact esc_cert_ok. Qed.
+
+(* CATEGORIES: a list of items written as ONE comma-separated value and read back through a content line
+   (vCategory.to_ical joins the escaped items with commas; Contentline.parts un-escapes the value;
+   vCategory.from_ical un-escapes and splits).  For every non-empty list of strings of any length: if every
+   item is inside the line guard and comma-free, and no item but the last ends in a backslash, the items
+   come back, each normalised, in the same order and multiplicity.  [cat_items_ok] also asks that no item
+   contains the number 1114112, which is not a code point: the items are Python strings.  The separator is
+   put into the chain alphabet as that symbol; certificate: 1 887 product states. *)
+Theorem C07_categories : forall items, cat_items_ok items = true ->
+  categories_via_line items = map norm items.
+Proof. exact categories_line. Qed.
+Print Assumptions C07_categories.
+Theorem C07_categories_certificate : check cat_chain cat_spec_chain forb_cat cat_crit cat_cert = true.
+Proof. exact cat_cert_ok. Qed.
+(* each clause of that guard is needed: an item with a comma, an item before the last that ends in a
+   backslash, the empty list (read back as one empty item) *)
+Theorem C07_categories_comma_refuted : exists items, categories_via_line items <> map norm items.
+Proof. exact categories_comma_refuted. Qed.
+Theorem C07_categories_backslash_refuted : exists items,
+  forallb cat_item_ok items = true /\ categories_via_line items <> map norm items.
+Proof. exact categories_backslash_refuted. Qed.
+Theorem C07_categories_empty_refuted : categories_via_line [] <> map norm [].
+Proof. exact categories_empty_refuted. Qed.
+Example C07_categories_nonvacuous :
+  let items := [[59; 92; 78; 37; 50]; []; [13; 10; 34; 58; 92; 32]; [119]; [119]; [92]] in
+  cat_items_ok items = true /\
+  categories_via_line items = [[59; 10; 37; 50]; []; [10; 34; 58; 92; 32]; [119]; [119]; [92]].
+Proof. vm_compute. split; reflexivity. Qed.
 
 (* outside the guards the property fails: these witnesses are the known findings *)
 Theorem C07_direct_refuted : exists s, unescape_char (escape_char s) <> norm s.
